@@ -121,6 +121,7 @@ func (rr *RdbReplay) Replay(e *rdb.BinEntry) (err error) {
 			params = append(params, e.Freq)
 		}
 	}
+	replaceExisting := false
 RESTORE:
 	s, err := common.String(rr.Client.Do("restore", params...))
 	if err != nil {
@@ -134,6 +135,7 @@ RESTORE:
 					log.Infof("replace key: %s", e.Key)
 				}
 				params = append(params, "REPLACE")
+				replaceExisting = true
 				goto RESTORE
 			case "ignore":
 				if rr.KeyExistsLog {
@@ -144,8 +146,19 @@ RESTORE:
 			}
 		} else if strings.Contains(err.Error(), "Bad data format") { // cluster.c:restoreCommand
 			log.Warn(err, " try to restoreBigRdbEntry")
+			// the refused RESTORE has neither removed the existing key nor set the expiry
+			if replaceExisting {
+				if _, err := common.Int64(rr.Client.Do("del", e.Key)); err != nil {
+					return fmt.Errorf("del exist key error : key(%s), error(%w)", e.Key, err)
+				}
+			}
 			if err := restoreBigRdbEntry(rr.Client, e); err != nil {
 				return err
+			}
+			if e.ExpireAt != 0 {
+				if _, err := common.Int64(rr.Client.Do("pexpire", e.Key, ttlms)); err != nil {
+					return fmt.Errorf("expire key error : key(%s), error(%w)", e.Key, err)
+				}
 			}
 		} else {
 			return fmt.Errorf("restore command error : key(%s), error(%w)", e.Key, err)
